@@ -60,11 +60,17 @@ static void os_join_hook(void);
 #define os_join_hook() ((void) 0)
 #endif
 
+#ifdef OS_CREATE_HOOK
+static void os_create_hook(void *(*fn)(void *), void *arg);
+#else
+#define os_create_hook(fn, arg) ((void) 0)
+#endif
 static pthread_t G_os_self = (pthread_t) 77;
 pthread_t pthread_self(void) { return G_os_self; }
 int pthread_create(pthread_t *t, const pthread_attr_t *a, void *(*fn)(void *), void *arg)
 {
 	(void) a; (void) fn; (void) arg;
+	os_create_hook(fn, arg);
 	*t = (pthread_t) (++G_os_thread_created);
 	return 0;
 }
@@ -119,6 +125,20 @@ long syscall(long nr, ...)
 	G_os_membarrier++;
 	return 0;
 }
+
+#ifdef OS_SYSCALL_MACRO
+#include <unistd.h>
+/* goto-instrument --apply-loop-contracts (legacy pipeline) loses the variadic arguments of syscall(): TUs whose only
+ * system call is futex route it through a fixed-arity twin of the stub above */
+static long verif_futex_call(int *uaddr, int op, int val)
+{
+	if (op == 1 /* FUTEX_WAKE */) G_os_futex_wake++; else G_os_futex_wait++;
+	os_futex_hook(uaddr, op, val);
+	if (G_os_futex_ret < 0) errno = G_os_futex_errno;
+	return G_os_futex_ret;
+}
+#define syscall(nr, uaddr, op, val, ...) verif_futex_call((int *) (uaddr), (op), (val))
+#endif
 
 /* ---- abort (urcu_die), condition variables ------------------------------------------------------- */
 #include <stdlib.h>
